@@ -239,6 +239,30 @@ def run(tier, seed, replay):
     rs.append(idsp)
     hs.append(idh)
     robs, rl, ml, racc = rtcommon.run_histories(out, tooldir, env, rs, hs, "C13 getters at run time", "C13", compare=True)
+    # the declared type is a named type the constructor's result CONVERTS to (float64 -> Celsius, string -> Label, int -> Count): every
+    # getter variant returns the object Get returns, converted.  (The run-time model knows nothing of these constructors: own oracle.)
+    ccfg = {"services": {n_: {"constructor": c_, "type": t_, "getter": "Get" + n_.capitalize(), "must_getter": True, "scope": sc_}
+                         for n_, c_, t_, sc_ in (("temp", "NewFloat", "Celsius", "shared"), ("label", "NewText", "Label", "contextual"), ("count", "NewInt", "Count", "non_shared"),
+                                                 ("plainf", "NewFloat", "float64", "shared"))}}
+    csp = common.mk_spec(0, [ccfg], keep_out=True)
+    csp["cfg"] = ccfg
+    csp["what"] = ["c13rt-converted-type"]
+    ch = []
+    for n_, sv_ in ccfg["services"].items():
+        g_ = sv_["getter"]
+        ch += [{"op": "get", "name": n_}, {"op": "getter", "name": g_}, {"op": "getterctx", "ctx": 1, "name": g_ + "InContext"}, {"op": "getter", "name": "Must" + g_}, {"op": "getterctx", "ctx": 2, "name": "Must" + g_ + "InContext"}]
+    cobs, crl, _, cacc = rtcommon.run_histories(out, tooldir, env, [csp], [ch], "C13conv getters with a converted type", "C13", compare=False)
+    if 0 in cacc:
+        last = None
+        for o, line in zip(ch, crl[0]):
+            if o["op"] == "get":
+                last = line
+                continue
+            if line != last:
+                out.violation("getter-differs-from-get:converted-type", "%s returns %s, Get returns %s (the declared type is a named type the result converts to)" % (o["name"], line[:160], last[:160]),
+                              dict(common.slim(csp, cobs[0]), history=ch, results=crl[0]))
+    else:
+        out.violation("converted-type-rejected", "a configuration whose getters declare named types of the constructors' results is rejected or does not build: %s" % ((cobs[0].get("errors") or [])[:3],), common.slim(csp, cobs[0]))
     strip = lambda s: _re.sub(r";#\d+\)", ";#)", s)
     gstat = {"getter_calls": 0, "must_panics": 0}
     top_serial = lambda line: (_re.findall(r";#(\d+)\)", line) or [None])[-1]
